@@ -1,2 +1,161 @@
+"""Independent re-derivation of the bundled CLDR tables from the JSON files in the repository copy.
+
+Nothing here uses the repository's generator binaries or its parser: language identifiers in the
+CLDR files are split with the UTS #35 shape rules below, and the integer forms are computed from
+the definition (ASCII bytes, little endian, zero padded) -- see DESIGN.md (C18, C06, C14).
+The output is Rust source that is pasted into the Kani harness modules at //@GEN@.
+"""
+import glob
+import json
+import os
+import re
+
+
+def enc(s):
+    """TinyAsciiStr integer form: ASCII bytes, little endian, zero padded."""
+    return int.from_bytes(s.encode('ascii'), 'little')
+
+
+def split_lid(text):
+    """(language|None, script|None, region|None, [variants]) by UTS #35 subtag shapes; canonical case."""
+    parts = re.split(r'[-_]', text)
+    lang = parts[0].lower()
+    assert re.fullmatch(r'[a-z]{2,3}|[a-z]{5,8}', lang), text
+    script = region = None
+    variants = []
+    pos = 1
+    for p in parts[1:]:
+        if pos == 1 and re.fullmatch(r'[A-Za-z]{4}', p):
+            script = p[0].upper() + p[1:].lower()
+            pos = 2
+        elif pos <= 2 and re.fullmatch(r'[A-Za-z]{2}|[0-9]{3}', p):
+            region = p.upper()
+            pos = 3
+        elif re.fullmatch(r'[A-Za-z0-9]{5,8}|[0-9][A-Za-z0-9]{3}', p):
+            variants.append(p.lower())
+            pos = 3
+        else:
+            raise ValueError('not a language identifier: %r' % text)
+    return (None if lang == 'und' else lang), script, region, variants
+
+
+def opt(v):
+    return 'None' if v is None else 'Some(%d)' % v
+
+
+CHUNK = 512
+
+
+def likely(repo_dir):
+    data = json.load(open(os.path.join(repo_dir, 'unic-langid-impl', 'data', 'likelySubtags.json')))
+    sup = data['supplemental']
+    tabs = {k: [] for k in ('LANG_ONLY', 'LANG_REGION', 'LANG_SCRIPT', 'SCRIPT_REGION', 'SCRIPT_ONLY', 'REGION_ONLY')}
+    for k, v in sup['likelySubtags'].items():
+        kl, ks, kr, kv = split_lid(k)
+        vl, vs, vr, vv = split_lid(v)
+        assert not kv and not vv
+        if vr == 'ZZ':
+            vr = None
+        val = (None if vl is None else enc(vl), None if vs is None else enc(vs), None if vr is None else enc(vr))
+        if kl is None and ks is None and kr is None:
+            tabs['LANG_ONLY'].append(((enc('und'),), val))
+        elif kl is not None and ks is None and kr is None:
+            tabs['LANG_ONLY'].append(((enc(kl),), val))
+        elif kl is not None and ks is None:
+            tabs['LANG_REGION'].append(((enc(kl), enc(kr)), val))
+        elif kl is not None and kr is None:
+            tabs['LANG_SCRIPT'].append(((enc(kl), enc(ks)), val))
+        elif kl is None and ks is not None and kr is not None:
+            tabs['SCRIPT_REGION'].append(((enc(ks), enc(kr)), val))
+        elif kl is None and ks is not None:
+            tabs['SCRIPT_ONLY'].append(((enc(ks),), val))
+        elif kl is None and kr is not None:
+            tabs['REGION_ONLY'].append(((enc(kr),), val))
+        else:
+            raise ValueError('CLDR key with language, script and region: %r' % k)
+    out = ['// regenerated on every run by vf/gen.py from unic-langid-impl/data/likelySubtags.json (%d entries)' % len(sup['likelySubtags']),
+           'pub const EXPECTED_CLDR_VERSION: &str = "%s";' % sup['version']['_cldrVersion'],
+           'pub type Val = (Option<u64>, Option<u32>, Option<u32>);']
+    types = {'LANG_ONLY': '(u64, Val)', 'LANG_REGION': '(u64, u32, Val)', 'LANG_SCRIPT': '(u64, u32, Val)',
+             'SCRIPT_REGION': '(u32, u32, Val)', 'SCRIPT_ONLY': '(u32, Val)', 'REGION_ONLY': '(u32, Val)'}
+    for name, rows in tabs.items():
+        rows.sort(key=lambda r: r[0])
+        assert len(set(r[0] for r in rows)) == len(rows), 'duplicate CLDR key in ' + name
+        if len(rows) <= 1000:
+            out.append('pub static EXPECTED_%s: [%s; %d] = [' % (name, types[name], len(rows)))
+            for key, val in rows:
+                out.append('    (%s, (%s, %s, %s)),' % (', '.join(str(x) for x in key), opt(val[0]), opt(val[1]), opt(val[2])))
+            out.append('];')
+        if len(rows) > 1000:
+            # CBMC cannot compare two 7143-row arrays under one symbolic index (> 30 min), and a 7143-arm match is beyond
+            # goto-instrument (> 20 GB): the CLDR side is emitted in chunks of CHUNK rows, one small static per chunk
+            out.append('pub const EXPECTED_%s_LEN: usize = %d;' % (name, len(rows)))
+            out.append('pub const CHUNK: usize = %d;' % CHUNK)
+            for c in range(0, len(rows), CHUNK):
+                part = rows[c:c + CHUNK]
+                out.append('pub static EXPECTED_%s_%02d: [%s; %d] = [' % (name, c // CHUNK, types[name], len(part)))
+                for key, val in part:
+                    out.append('    (%s, (%s, %s, %s)),' % (', '.join(str(x) for x in key), opt(val[0]), opt(val[1]), opt(val[2])))
+                out.append('];')
+    return '\n'.join(out) + '\n'
+
+
+DIRS = {'left-to-right': 0, 'right-to-left': 1, 'top-to-bottom': 2}
+
+
+def layout_rows(repo_dir):
+    rows = []
+    base = os.path.join(repo_dir, 'unic-langid-impl', 'data', 'cldr-misc-full', 'main')
+    for p in sorted(glob.glob(os.path.join(base, '*', 'layout.json'))):
+        d = json.load(open(p))
+        (name, body), = d['main'].items()
+        if name == 'root':
+            continue
+        rows.append((name, split_lid(name), DIRS[body['layout']['orientation']['characterOrder']]))
+    return rows
+
+
+def layout(repo_dir):
+    rows = layout_rows(repo_dir)
+    by_script = {}
+    rtl_langs = set()
+    lang_dirs = {}
+    for name, (l, s, r, v), d in rows:
+        if s is not None:
+            by_script.setdefault(s, set()).add(d)
+        if d == 1:
+            rtl_langs.add(l)
+        lang_dirs.setdefault(l, set()).add(d)
+    for s, ds in by_script.items():
+        assert len(ds) == 1, 'script with two directions in CLDR: ' + s
+    sc = {0: [], 1: [], 2: []}
+    for s, ds in by_script.items():
+        sc[next(iter(ds))].append(enc(s))
+    multi = sorted(enc(l) for l, ds in lang_dirs.items() if len(ds) > 1 and l is not None)
+    out = ['// regenerated on every run by vf/gen.py from unic-langid-impl/data/cldr-misc-full/main/*/layout.json (%d locales)' % len(rows)]
+
+    def arr(name, ty, xs):
+        xs = sorted(xs)
+        out.append('pub static %s: [%s; %d] = [%s];' % (name, ty, len(xs), ', '.join(str(x) for x in xs)))
+    arr('EXPECTED_SCRIPTS_LTR', 'u32', sc[0])
+    arr('EXPECTED_SCRIPTS_RTL', 'u32', sc[1])
+    arr('EXPECTED_SCRIPTS_TTB', 'u32', sc[2])
+    assert None not in rtl_langs
+    arr('EXPECTED_LANGS_RTL', 'u64', [enc(l) for l in rtl_langs])
+    arr('EXPECTED_LANGS_MULTI_DIR', 'u64', multi)
+    # (language, script, region, direction) of every CLDR layout locale; 0 = absent subtag; the three locales with a
+    # variant (be-tarask, ca-ES-valencia, el-polyton) are listed without it: C14 says variants never matter, which the
+    # harness checks separately
+    out.append('pub static EXPECTED_LAYOUT_ROWS: [(u64, u32, u32, u8); %d] = [' % len(rows))
+    for name, (l, s, r, v), d in rows:
+        out.append('    (%d, %d, %d, %d), // %s' % (0 if l is None else enc(l), 0 if s is None else enc(s), 0 if r is None else enc(r), d, name))
+    out.append('];')
+    return '\n'.join(out) + '\n'
+
+
 def generate(which, repo_dir):
+    if which == 'likely':
+        return likely(repo_dir)
+    if which == 'layout':
+        return layout(repo_dir)
     raise NotImplementedError(which)
